@@ -16,6 +16,9 @@ spec->code: every printed behaviour is replayed on the real library: the real ob
             computes from the fixed-width format) and the downstream results.
 deviations: every named deviation must give a TLC counterexample, which is looked up
             in the enumerated cases and replayed on the real code.
+conformance: the model with the deviations the code showed when this check was written
+            (AS_IMPLEMENTED) is run over the same cases; its per-case verdict is compared
+            with the real code's (evidence only: as_implemented_model_vs_code).
 binding   : a corrupted abstract file must be rejected by the projection comparison
             and a file tampered with between write and read must be flagged by the
             oracle.
